@@ -19,6 +19,11 @@ pub fn lattice(rng: &mut Rng, extra: usize) -> Vec<TimeDelta> {
     for u in [1_000i128, 1_000_000, NS, 60 * NS, 3600 * NS, 86_400 * NS, 604_800 * NS] {
         for k in [1i128, 2, 59, 60, 1000] { for d in [1i128, 500_000_000, NS - 1, u / 2] { ns.push(k * u + d); ns.push((k * u - d).abs()); } }
     }
+    // every binary scale (an f64, i32, u32 or i64 intermediate changes behaviour at a power of two in the MIDDLE of the range): 2^k ns,
+    // 2^k us, 2^k ms and 2^k s with their neighbours and the point half way to the next power
+    for (unit, kmax) in [(1i128, 72u32), (1_000, 62), (1_000_000, 62), (NS, 53)] { for k in (7..=kmax).step_by(if extra >= 1000 { 1 } else { 3 }) {
+        for x in [(1i128 << k) - 1, 1i128 << k, (1i128 << k) + 1, 3i128 << (k - 1)] { if x * unit <= DUR_LIM { ns.push(x * unit); ns.push(x * unit + unit / 2 + 1); } }
+    } }
     for _ in 0..extra {
         ns.push(match rng.below(3) { 0 => (rng.next() as i128) % DUR_LIM, 1 => (rng.loguniform(62) as i128).abs(), _ => (rng.range(0, 4_000_000) as i128) * NS + rng.range(0, 999_999_999) as i128 });
     }
